@@ -104,3 +104,38 @@ func Sparse(seed uint64, n int, v int) []byte {
 	}
 	return p
 }
+
+// NeutralBlocks returns n bytes of otherwise random content in which every aligned block of bs bytes
+// ends with the byte c and has a byte sum that is a multiple of 65536: sliding a window of that
+// size by one byte from just before such a block onto it leaves the rsync rolling checksum
+// unchanged (the byte leaving equals the byte entering, the sum term does not move).
+func NeutralBlocks(seed uint64, n int, bs int, c byte) []byte {
+	p := Bytes(seed, n)
+	for start := 0; start+bs <= n; start += bs {
+		blk := p[start : start+bs]
+		blk[bs-1] = c
+		// re-assign up to 300 bytes spread over the block so that the sum comes out right
+		pos := func(i int) int { return (7 + i*211) % (bs - 1) }
+		k := 300
+		if bs < 1000 {
+			k = bs / 2
+		}
+		for i := 0; i < k; i++ {
+			blk[pos(i)] = 0
+		}
+		sum := 0
+		for _, v := range blk {
+			sum += int(v)
+		}
+		need := (65536 - sum%65536) % 65536
+		for i := 0; i < k && need > 0; i++ {
+			v := need
+			if v > 255 {
+				v = 255
+			}
+			blk[pos(i)] = byte(v)
+			need -= v
+		}
+	}
+	return p
+}
